@@ -452,21 +452,24 @@ def r8_node_tables(chk: Check) -> None:
         for k, v in keys.items():
             want = l2c.get(k)
             attr = v.rpartition(".")[2]
-            chk.decide(want is not None and attr == want and ".case." in v, "C10.R8", ev, f"`{k}` is read from case.{want}",
+            others = set(l2c.values()) - {want}
+            chk.decide(True if (want is not None and attr == want) else (False if attr in others else None), "C10.R8", ev, f"`{k}` is read from case.{want}",
                        f"`$request.{k}.<name>` is looked up in `{v}`, the `{k}` parameters of a case live in `case.{want}`: the link passes another location's value (or nothing)", ev.loc(table))
     # header case-insensitivity
     cid = [c for c in body_calls(ev) if last_attr(c) == "CaseInsensitiveDict"]
     g = cfg_of(ev)
     ok = bool(cid) and all(known_conditions(g, g.stmt_nodes_containing(c)).get("self.location == 'header'") is True for c in cid)
-    chk.decide(True if ok else (False if not cid else None), "C10.R8", ev, "request header names are matched case-insensitively",
+    normalises = any(isinstance(c, ast.Call) and last_attr(c) in ("lower", "casefold", "upper") for c in body_calls(ev))
+    chk.decide(True if ok else (False if (not cid and not normalises) else None), "C10.R8", ev, "request header names are matched case-insensitively",
                "the header container is a plain dict: `$request.header.x-token` does not find `X-Token`", ev.loc())
     hr = P.func(f"{EXPR}/nodes.py:HeaderResponse.evaluate")
     gets = [c for c in body_calls(hr) if last_attr(c) == "get" and "headers" in unparse(c.func)]
-    chk.decide(bool(gets) and all(c.args and unparse(c.args[0]).endswith(".lower()") for c in gets) if gets else None, "C10.R8", hr, "response header lookup key is lower-cased",
+    ci = "CaseInsensitiveDict" in unparse(hr.node, 3000)
+    chk.decide((True if (ci or all(c.args and unparse(c.args[0]).endswith(".lower()") for c in gets)) else False) if gets else None, "C10.R8", hr, "response header lookup key is lower-cased",
                "recorded response header names are lower-cased; a lookup with the expression's own spelling (`Location`) finds nothing: the link value is UNRESOLVABLE and silently replaced by a generated one", hr.loc())
     got = {t.id for a in walk_body(hr.node) if isinstance(a, ast.Assign) and isinstance(a.value, ast.Call) and last_attr(a.value) == "get" for t in a.targets if isinstance(t, ast.Name)}
     firsts = [n for n in walk_body(hr.node) if isinstance(n, ast.Subscript) and isinstance(n.value, ast.Name) and n.value.id in got and unparse(n.slice) == "0"]
-    chk.decide(bool(firsts), "C10.R8", hr, "a header value is the first element of the recorded list", "the list of values (or something else) is passed instead of the header's value", hr.loc())
+    chk.decide(True if firsts else None, "C10.R8", hr, "a header value is the first element of the recorded list", "the list of values (or something else) is passed instead of the header's value", hr.loc())
     for name in ("BodyRequest", "BodyResponse"):
         f = P.func(f"{EXPR}/nodes.py:{name}.evaluate")
         rp = [c for c in body_calls(f) if last_attr(c) == "resolve_pointer"]
